@@ -13,6 +13,7 @@ import Mahotas.Proofs.PyBodyTiesC16
 import Mahotas.Proofs.PyBodyTiesC16b
 import Mahotas.Proofs.PyBodyTiesC17
 import Mahotas.Proofs.PyBodyTiesC18
+import Mahotas.Proofs.PyBodyTiesC18b
 import Mahotas.Proofs.PyBodyTiesC16Rc
 import Mahotas.Proofs.PyBodyTiesC20
 import Mahotas.Proofs.PyBodyTiesC20b
